@@ -2,9 +2,16 @@ import Proofs.Chunks
 import Proofs.LinkLists
 import Proofs.SizesGrowth
 import Proofs.SizesLinks
+import Proofs.SizesRun
 /-! C19 — storage growth is exactly accounted for. Arithmetic core for every stem length; a new node
-    takes exactly `blocksFor stem` blocks; `n` link ends take exactly `n` stubs. The accounting invariant `SizeOk` is preserved by every insertion;
-    re-submission allocates nothing; the link store grows by two stubs per link (Proofs/Sizes*). -/
+    takes exactly `blocksFor stem` blocks; `n` link ends take exactly `n` stubs; the accounting invariant
+    `SizeOk` is preserved by every insertion. HISTORY LEVEL (Proofs/Known*, SizesRun): after any history
+    the trie holds one header block plus `blocksFor(last stem)` blocks per known LRU, the known LRUs being
+    the stem-prefix closure of everything the requests named (`C19_trie_history`); the link store holds one
+    header stub plus two stubs per submitted link, self-links and repeats included, empty target lists
+    costing nothing (`C19_links_history`); sizes never decrease without `clear` (`C19_monotone`); a request
+    naming only known LRUs and submitting no link changes neither size (`C19_idempotent_request`); every
+    request grows the trie by exactly the blocks of the LRUs it names that were not known (`C19_request_growth`). -/
 namespace Traph.Props
 open Traph State
 
@@ -60,5 +67,42 @@ theorem C19_links (s : State) (pairs : List (Bytes × Bytes)) (r : Report) (hok 
     (s.addLinks pairs).1.links.size = s.links.size + 2 * pairs.length := addLinks_links_size s pairs r hok
 
 example : blocksFor (List.replicate 75 65) = 2 ∧ blocksFor (List.replicate 148 65) = 2 ∧ blocksFor (List.replicate 149 65) = 3 := by decide
+
+/-- HISTORY LEVEL, trie: header + Σ blocksFor(last stem) over the known LRUs = the non-empty stem-prefixes of
+    the constructor-rule anchors and of everything named by the requests (`K` any duplicate-free listing) -/
+theorem C19_trie_history (cfg : Config) (dflt : Rule) (rules : List (Bytes × Rule)) (ops : List Op)
+    (hop : ∀ op ∈ ops, ∀ d rs, op ≠ .clear d rs)
+    (hok : NoKeyErr (State.fresh cfg dflt rules []).1 ops)
+    (K : List LRU) (hnd : K.Nodup)
+    (hK : ∀ p, p ∈ K ↔ Covered (anchors rules ++ (State.fresh cfg dflt rules []).1.namedRun ops) p) :
+    ((State.fresh cfg dflt rules []).1.run ops).trie.size = 1 + (K.map lruBlocks).sum :=
+  Traph.C19_trie_history cfg dflt rules ops hop hok K hnd hK
+
+/-- HISTORY LEVEL, link store: header stub + two stubs per submitted link -/
+theorem C19_links_history (cfg : Config) (dflt : Rule) (rules : List (Bytes × Rule)) (ops : List Op)
+    (hop : ∀ op ∈ ops, ∀ d rs, op ≠ .clear d rs)
+    (hok : NoKeyErr (State.fresh cfg dflt rules []).1 ops) :
+    ((State.fresh cfg dflt rules []).1.run ops).links.size = 1 + 2 * linksSubmitted ops :=
+  Traph.C19_links_history cfg dflt rules ops hop hok
+
+/-- sizes never decrease along a history without `clear` (aborted requests included) -/
+theorem C19_monotone (s : State) (ops : List Op) (hl : Live s) (hop : ∀ op ∈ ops, ∀ d rs, op ≠ .clear d rs) :
+    s.trie.size ≤ (s.run ops).trie.size ∧ s.links.size ≤ (s.run ops).links.size :=
+  Traph.C19_monotone s ops hl hop
+
+/-- any request (of any kind) naming only known LRUs and submitting no link leaves both files as long as they were -/
+theorem C19_idempotent_request {s : State} {t : T} (g : Good s t) (op : Op) (hop : ∀ d rs, op ≠ .clear d rs)
+    (hne : (s.step op).2 ≠ .err (.other "KeyError"))
+    (hknown : ∀ l ∈ s.named op, l ≠ [] → Known s t l) (hlinks : op.nlinks = 0) :
+    (s.step op).1.trie.size = s.trie.size ∧ (s.step op).1.links.size = s.links.size :=
+  C19_idempotent_step g op hop hne hknown hlinks
+
+/-- exact growth per request: the blocks of the named LRUs (and their stem-prefixes) that were not known -/
+theorem C19_request_growth {s : State} {t : T} (g : Good s t) (op : Op) (hop : ∀ d rs, op ≠ .clear d rs)
+    (hne : (s.step op).2 ≠ .err (.other "KeyError"))
+    (N : List LRU) (hnd : N.Nodup) (hN : ∀ p, p ∈ N ↔ Covered (s.named op) p ∧ ¬ Known s t p) :
+    (s.step op).1.trie.size = s.trie.size + (N.map lruBlocks).sum ∧
+    (s.step op).1.links.size = s.links.size + 2 * op.nlinks :=
+  ⟨C19_step_growth g op hop hne N hnd hN, links_step s op hop hne⟩
 
 end Traph.Props
